@@ -98,6 +98,17 @@ CycExt(E, s, path, last) ==
        \cup UNION {CycExt(E, s, Append(path, v), v) : v \in nxt}
 ElemCycles(V, E) == UNION {CycExt(E, s, <<s>>, s) : s \in V}
 
+\* The same enumeration as a step relation (CycleSearch.tla runs it as a state machine on recorded
+\* digraphs of 8..16 nodes): a state is a simple path whose first node is its least node; it closes
+\* an elementary cycle iff its last node has an edge back to the first.  succ: node -> successor set.
+\* (StructuralR1 CycleSearchOK: the closing paths are exactly ElemCyclesDef.)
+CyclePathSteps(succ, path) == {v \in succ[path[Len(path)]] : v > path[1] /\ \A i \in DOMAIN path : path[i] # v}
+ClosesCycle(succ, path) == Len(path) >= 2 /\ path[1] \in succ[path[Len(path)]]
+RECURSIVE CyclesFrom(_, _)
+CyclesFrom(succ, path) ==
+    (IF ClosesCycle(succ, path) THEN {path} ELSE {})
+    \cup UNION {CyclesFrom(succ, Append(path, v)) : v \in CyclePathSteps(succ, path)}
+
 IsClosedSimple(E, c) == /\ \A i \in DOMAIN c : \A j \in DOMAIN c : i # j => c[i] # c[j]
                         /\ \A i \in 1 .. Len(c) - 1 : <<c[i], c[i + 1]>> \in E
                         /\ <<c[Len(c)], c[1]>> \in E
@@ -135,6 +146,18 @@ BK(E, R, P, X) == IF P = {} THEN (IF X = {} /\ R # {} THEN {R} ELSE {})
                        IN BK(E, R \cup {v}, P \cap Succ(E, v), X \cap Succ(E, v)) \cup BK(E, R, P \ {v}, X \cup {v})
 MaxCliques(V, E) == BK(E, {}, V, {})
 IsMaxClique(V, E, S) == S # {} /\ S \subseteq V /\ IsClique(E, S) /\ \A v \in V \ S : ~(S \subseteq Succ(E, v))
+
+\* The same enumeration as a step relation, for graphs far beyond SUBSET V (CliqueSearch.tla runs it as
+\* a state machine on recorded graphs of 18..36 nodes).  A state is a clique R with cand = the nodes
+\* adjacent to every member of R; a step adds a candidate larger than every member, so each clique is
+\* reached exactly once (its nodes in increasing order), and R is maximal iff R # {} and cand = {}.
+\* adj: function node -> neighbour set.   (StructuralR1 CliqueSearchOK: leaves = MaxCliquesDef.)
+CliqueSteps(adj, R, cand) == {<<R \cup {v}, cand \cap adj[v]>> : v \in {w \in cand : R = {} \/ w > Max(R)}}
+IsCliqueLeaf(R, cand) == R # {} /\ cand = {}
+RECURSIVE CliqueLeaves(_, _, _)
+CliqueLeaves(adj, R, cand) ==
+    (IF IsCliqueLeaf(R, cand) THEN {R} ELSE {})
+    \cup UNION {CliqueLeaves(adj, st[1], st[2]) : st \in CliqueSteps(adj, R, cand)}
 
 \* clique graph: nodes = maximal cliques, edge iff they share a node, labelled by the shared nodes
 CliqueGraphEdgesOf(M) == {<<A, B>> \in M \X M : A # B /\ A \cap B # {}}
@@ -242,6 +265,26 @@ KColourableFrom(E, todo, col, used, k) ==
                KColourableFrom(E, todo \ {v}, [u \in DOMAIN col \cup {v} |-> IF u = v THEN c ELSE col[u]],
                                IF c > used THEN c ELSE used, k)
 KColourable(V, E, k) == k >= 0 /\ KColourableFrom(E, V, <<>>, 0, k)
+\* The same search as a step relation over a FIXED vertex order ord (any permutation of V), for
+\* graphs far beyond enumeration: ChromaticSearch.tla runs it as a state machine and TLC exhausts
+\* it.  A state is col, the colours of ord[1..Len(col)].  Canonical form: colours are numbered in
+\* the order of their first use along ord, so vertex i may take a colour already used or the single
+\* next unused one (and none above K).  Every proper colouring with <= K colours has exactly one
+\* renaming of this form and its prefixes are of this form too, hence: no complete canonical
+\* colouring is reachable from <<>>  <=>  the graph has no proper colouring with <= K colours.
+\* (StructuralR1 SearchOK: TLC proves this against ChiDef on every graph <= 5 nodes, every order.)
+IsPermOf(ord, V) == Len(ord) = Cardinality(V) /\ Rng(ord) = V
+BackSets(E, ord) == [i \in DOMAIN ord |-> {j \in 1 .. i - 1 : <<ord[j], ord[i]>> \in E}]   \* earlier neighbours, as positions
+SeqMax(c) == IF Len(c) = 0 THEN 0 ELSE Max(Rng(c))
+CanonChoices(back, col, K) ==
+    LET i == Len(col) + 1
+        mu == SeqMax(col)
+        top == IF mu + 1 <= K THEN mu + 1 ELSE K
+    IN {c \in 1 .. top : \A j \in back[i] : col[j] # c}
+RECURSIVE CanonCompletable(_, _, _, _)
+CanonCompletable(back, n, col, K) ==
+    IF Len(col) = n THEN TRUE
+    ELSE \E c \in CanonChoices(back, col, K) : CanonCompletable(back, n, Append(col, c), K)
 \* a partial colouring is admissible iff its nodes exist and it is proper on its domain
 PartialOK(V, E, part) == DOMAIN part \subseteq V /\ \A e \in E : (e[1] \in DOMAIN part /\ e[2] \in DOMAIN part) => part[e[1]] # part[e[2]]
 Extends(col, part) == \A v \in DOMAIN part : col[v] = part[v]
